@@ -31,6 +31,12 @@ CLAIMED = {
          "Decides the endpoint's verdict-to-status mapping composed with the real Update's outcome classes, limiter-first, exactly one documented status per path, 200-body provenance and the pre-checks. Transport, crypto validity of the cosignature and the limiter's rate are not decided.", "5/C10"),
  "C11": ("sibling agreement (writer vs reader) over path summaries + refusal-totality + disallowed-call query",
          "Narrow structural claim (level other): same base64 object/terminator/prefix in writers and readers, error returns carry nothing else, success only after the blank separator, strict whole-string integer parsing, order-preserving element construction. Round-trip equality of values is not decided (O1).", "5/C11"),
+ "C13": ("provenance analysis over the path summaries of FeedOnce and of the retry closure (analysed as its own root, linked through captured cells)",
+         "Decides verify-before-submit, anchoring of old size and proof to the witness's latest of the same attempt, never-when-ahead, retry bound to the context, result pass-through. Retry convergence and timing are not decided.", "5/C13"),
+ "C15": ("provenance + implied-fact (zone) analysis over the path summaries of distributeForLog/DistributeOnce",
+         "Decides PUT-verbatim, verify-before-PUT with exactly two verified signatures, target URL construction, success implies status == 200 with method PUT, per-log isolation (loop unrolled twice). Signature validity and net/http behaviour trusted.", "5/C15"),
+ "C16": ("value-identity analysis over handler/client path summaries + code tables + route-pattern check against the ID alphabet",
+         "Decides handler-verbatim, NotFound<->404<->os.ErrNotExist mappings on implied facts, log list = JSON of storage keys, route pattern admits every hex ID. Routing internals of gorilla/mux trusted.", "5/C16"),
  "C20": ("path-sensitive effect summaries: outcome-to-counter table over all paths of Update",
          "Decides exactly-once increments per outcome with counters identified by metric name, label provenance, single assignment in Once.Do, constructors initialise metrics.", "5/C20"),
 }
